@@ -137,6 +137,9 @@ func main() {
 				if rb := runRefactorings(id, *repo, *root); rb != nil {
 					extra["checker_robustness"] = rb
 				}
+				if sm := runSystematic(c, id, *repo, *root, seed, 36); sm != nil {
+					extra["systematic_mutation_sample"] = sm
+				}
 			}
 		}
 		if *list {
